@@ -58,6 +58,12 @@ def run(ctx):
     n += 1
     if np.ma.masked_array(5., mask=True).item() != 5.0:
         bad.append('masked 0-d .item() fact does not hold')
+    # uint8 array minus a Python integer stays uint8 (values below the offset wrap around); minus a float32 scalar it becomes float
+    n += 2
+    if (np.array([5, 200], dtype='uint8') - 127).dtype != np.dtype('uint8'):
+        bad.append('uint8 - int stays uint8 fact does not hold')
+    if (np.array([5, 200], dtype='uint8') - np.float32(127.)).dtype.kind != 'f':
+        bad.append('uint8 - float32 becomes float fact does not hold')
     # np.isscalar classification used by C02
     n += 3
     if not (np.isscalar(3) and np.isscalar(np.int64(3)) and not np.isscalar(slice(1, 2)) and not np.isscalar([1, 2]) and not np.isscalar(np.array([1]))):
